@@ -8,13 +8,14 @@ ROOT = os.path.dirname(os.path.dirname(os.path.abspath(__file__)))
 
 
 def run_all(repo, lean_dir, gen_dir):
-    from . import syntaxkind, keywords, recovery
+    from . import syntaxkind, keywords, recovery, facts
     errors = {}
     G = os.path.join(lean_dir, "PsycheModel", "Generated")
     jobs = [
         ("syntaxkind", lambda: syntaxkind.main(repo, os.path.join(G, "SyntaxKind.lean"), os.path.join(gen_dir, "kindnames.inc")), ["SyntaxKind.lean"]),
         ("keywords", lambda: keywords.main(repo, os.path.join(G, "Keywords.lean")), ["Keywords.lean"]),
         ("recovery", lambda: recovery.main(repo, os.path.join(G, "Recovery.lean")), ["Recovery.lean"]),
+        ("facts", lambda: facts.main(repo, os.path.join(G, "Facts.lean")), ["Facts.lean"]),
     ]
     for name, fn, files in jobs:
         try:
